@@ -92,7 +92,9 @@ func pmStep(P, E, S, R float64, q9, q1 []float64, x1, x2, x3, x4 float64) (Q, S2
 const c15Abs = 1e-7
 const c15Rel = 1e-7
 
-func c15step(x4 float64) {
+func c15step(x4 float64) { c15stepx(x4, false) }
+
+func c15stepx(x4 float64, packed bool) {
 	n1, n2 := int(math.Ceil(x4)), int(math.Ceil(2*x4))
 	P, E := rrNonNeg("rain"), rrNonNeg("pet")
 	x1, x2, x3 := vsym.Float64("x1"), vsym.Float64("x2"), vsym.Float64("x3")
@@ -101,6 +103,11 @@ func c15step(x4 float64) {
 	vsym.Assume(S >= 0 && S <= x1 && R >= 0 && R <= x3)
 	q9, q1 := make([]float64, n1), make([]float64, n2)
 	q9c, q1c := make([]float64, n1), make([]float64, n2)
+	if packed {
+		// the layout of the packed state row: [S R n1 n2 | q1 (n2) | q9 (n1) | next cell ...]
+		row := make([]float64, 4+n2+n1+4)
+		q1c, q9c = row[4:4+n2], row[4+n2:4+n2+n1]
+	}
 	for i := range q9 {
 		q9[i] = rrNonNeg("q9")
 		q9c[i] = q9[i]
@@ -168,3 +175,14 @@ func H_C15_x4_3() { c15step(3) }
 // H_C15_x4_1p2: x4 = 1.2 (2, 3), a non-half-integer time base.
 //vsym:prop=C15 tier=thorough ints=int floats=real timeout=60
 func H_C15_x4_1p2() { c15step(1.2) }
+
+// H_C15_packed_x4_1p5: as H_C15_x4_1p5, but the two unit-hydrograph queues handed to the kernel are
+// windows of ONE backing array laid out like the packed state row ([.. q1 | q9 ..], spare capacity
+// behind each window) - which is how Run hands them over - instead of two freshly made slices: a
+// kernel that appends to one queue must not overwrite the other.
+//vsym:prop=C15 tier=quick ints=int floats=real timeout=120
+func H_C15_packed_x4_1p5() { c15stepx(1.5, true) }
+
+// H_C15_packed_x4_0p75: the same for x4 = 0.75 (queue lengths 1 and 2).
+//vsym:prop=C15 tier=quick ints=int floats=real timeout=120
+func H_C15_packed_x4_0p75() { c15stepx(0.75, true) }
